@@ -72,6 +72,7 @@ type Exec struct {
 	shape   []int
 	violSeen map[string]int
 	aesApps  map[*Term]bool
+	b64seq   int
 	spec     *Term // non-nil while speculating a block under this condition (if-conversion)
 }
 
